@@ -107,6 +107,18 @@ def special_cases():
     # of C13_maskExact_clause_needed (tol = 0.2 masks the only row)
     out.append(dict(base, n=2, M=2, tol=1e-2, grades=[2], A=K.tojson(np.array([[1., 0.], [0.05, 0.05]])), B=K.tojson(np.array([[1., 0.]])), X0=K.tojson(np.zeros((1, 2)))))
     out.append(dict(base, n=1, M=1, tol=0.2, grades=[1], A=K.tojson(np.array([[2.]])), B=K.tojson(np.array([[1.]])), X0=K.tojson(np.zeros((1, 1)))))
+    # a batch whose columns see parts of the spectrum of very different scale (block-diagonal operator, one column per block, scale
+    # ratio 1e8 > 1/(10 tol)): the padding threshold of the normal equations is per column, a batch-wide one masks the genuine
+    # Hessenberg columns of the small-scale right-hand side (seeded change c13_m4).  Grade 2 with m = 2, and grade 3 truncated at m = 2.
+    A1, A2 = np.array([[2., 1.], [1., 3.]]), np.array([[3., 1.], [2., 4.]])
+    Ablk = np.zeros((4, 4)); Ablk[:2, :2] = A1; Ablk[2:, 2:] = 1e8 * A2
+    out.append(dict(base, n=4, M=2, tol=1e-7, grades=[2, 2], rhs=["special"] * 2, single=False, A=K.tojson(Ablk),
+                    B=K.tojson(np.array([[1., 1., 0., 0.], [0., 0., 1., 1.]])), X0=K.tojson(np.zeros((2, 4)))))
+    B1, B2 = np.array([[2., 1., 0.], [1., 3., 1.], [0., 1., 4.]]), np.array([[4., 1., 0.], [2., 3., 1.], [0., 1., 5.]])
+    Ablk6 = np.zeros((6, 6)); Ablk6[:3, :3] = B1; Ablk6[3:, 3:] = 1e8 * B2
+    for Mm in (1, 2, 3):
+        out.append(dict(base, n=6, M=Mm, tol=1e-7, grades=[3, 3], rhs=["special"] * 2, single=False, A=K.tojson(Ablk6),
+                        B=K.tojson(np.array([[1., 0., 1., 0., 0., 0.], [0., 0., 0., 1., 1., 0.]])), X0=K.tojson(np.zeros((2, 6)))))
     # noClip: an operator of norm ~1e-9 with tol = 1e-7: every step norm is below the absolute floor tol/2
     out.append(dict(base, n=3, M=3, tol=1e-7, grades=[3], witness_of="noClip", A=K.tojson(1e-9 * np.array([[3., 1., 0.], [2., 3., 1.], [0., 1., 4.]])),
                     B=K.tojson(np.array([[1., 0., 0.]])), X0=K.tojson(np.zeros((1, 3)))))
